@@ -2,7 +2,7 @@
    The model decoder is a total function (Coq accepts it), so "returns a term or an error value" is by construction
    once fuel exhaustion — the one artificial outcome — is shown unreachable.  Process-level effects (stack depth,
    allocator requests) are measured on the implementation by the harness; see DESIGN.md. *)
-From EDP Require Import Base.Bytes Term.Term Gen.Tags Gen.DecoderArms Codec.Decode Codec.DecodeFacts Gen.Prealloc Codec.PreallocFacts.
+From EDP Require Import Base.Bytes Term.Term Gen.Tags Gen.Limits Gen.DecoderArms Codec.Decode Codec.DecodeFacts Gen.Prealloc Codec.PreallocFacts Order.Cmp Codec.OffsetFacts Codec.SizeFacts.
 
 (* for every byte string, every oracle and either arm table, decode yields a term, a decode error or trailing data:
    never the model's out-of-fuel value *)
@@ -34,5 +34,31 @@ Proof. exact preallocations_capped. Qed.
 
 Theorem C02_preallocations_listed : (8 <= length prealloc_sites)%nat.
 Proof. exact preallocations_listed. Qed.
+
+(* memory in proportion to the input: every node of the term the decoder returns is paid for by a byte it consumed —
+   for every input, every fuel and every arm table without the compressed arm (whose nested term is read from another
+   buffer); map insertion is the library's (it never builds more than it is given) *)
+Theorem C02_result_size_bounded_by_input : forall cfg arms f bs t r, d_kinsert cfg = map_insert ->
+  parse (with_arms cfg (uncompressed arms)) f bs = POk t r -> (nodes t + length r <= length bs)%nat.
+Proof.
+  intros cfg arms f bs t r Hins. exact (parse_sized (with_arms cfg (uncompressed arms)) Hins (uncompressed_ok arms) f bs t r).
+Qed.
+
+(* the compressed arm: the term is read from the inflated buffer, whose length does not exceed the size the input
+   declares, and the declared size is capped before anything is inflated into it *)
+Theorem C02_inflated_within_declared : forall cfg self r0 t r, parse_body cfg self 25 r0 = POk t r ->
+  exists usz rest plain consumed r',
+    rd 4 r0 = Some (usz, rest) /\ usz <= max_binary_size /\ d_inflate cfg rest = Some (plain, consumed) /\
+    len plain <= usz /\ self plain = POk t r'.
+Proof. exact compressed_within_declared. Qed.
+
+Theorem C02_compressed_message_size : forall cfg f r0 t r, d_kinsert cfg = map_insert ->
+  parse_body cfg (parse (with_arms cfg (uncompressed (d_arms cfg))) f) 25 r0 = POk t r ->
+  exists usz, N.of_nat (nodes t) <= usz /\ usz <= max_binary_size.
+Proof. exact compressed_message_sized. Qed.
+
+Example C02_size_example :
+  nodes (TTuple [TList [TInt 1; TInt 2]; TMap [(TAtom [97], TBin [1; 2; 3])]; TNil]) = 8%nat.
+Proof. reflexivity. Qed.
 
 Check C02_decode_total : forall cfg data, decode cfg data <> DErr KFuel.
